@@ -324,3 +324,56 @@ Definition quantile_level (md : mode) (pq : Q) : Q := match md with Min => pq | 
 (* the documented rule for one report: [ms] = all metrics at the rung incl. own *)
 Definition rule_b (md : mode) (pq : Q) (ms : list Q) (own : Q) : bool :=
   (length ms <? 2)%nat || no_worse md own (np_quantile (sort_asc ms) (quantile_level md pq)).
+
+(* ---- rung level construction: utils/successive_halving.py -------------------------------- *)
+
+(* [min_t * rf^k for k in range(max_rungs)], max_rungs = number of k with min_t * rf^k < max_t
+   (integer reduction factor: np.power and round are exact); [fuel] bounds the while loop *)
+Fixpoint geo_levels (fuel : nat) (cur rf max_t : Z) : list Z :=
+  match fuel with
+  | O => []
+  | S f => if (cur <? max_t)%Z then cur :: geo_levels f (cur * rf)%Z rf max_t else []
+  end.
+
+(* list(range(grace_period, max_t, rung_increment)) *)
+Fixpoint arith_levels (fuel : nat) (cur incr max_t : Z) : list Z :=
+  match fuel with
+  | O => []
+  | S f => if (cur <? max_t)%Z then cur :: arith_levels f (cur + incr)%Z incr max_t else []
+  end.
+
+(* all(x < y for x, y in zip(l, l[1:])) *)
+Fixpoint strictly_increasing (l : list Z) : bool :=
+  match l with
+  | x :: ((y :: _) as r) => (x <? y)%Z && strictly_increasing r
+  | _ => true
+  end.
+
+(* successive_halving_rung_levels(rung_levels, grace_period, reduction_factor, rung_increment, max_t);
+   None = one of its assertions fails. Integer reduction factors only. *)
+Definition sh_rung_levels (rung_levels : option (list Z)) (grace_period : Z) (reduction_factor rung_increment : option Z)
+           (max_t : Z) : option (list Z) :=
+  let lv :=
+    match rung_levels with
+    | Some l =>
+        if (2 <=? length l)%nat && forallb (fun x => (1 <=? x)%Z) l && strictly_increasing l
+           && (last l 0 <=? max_t)%Z
+        then Some l else None
+    | None =>
+        if (1 <=? grace_period)%Z && (1 <=? max_t)%Z && (grace_period <? max_t)%Z then
+          match reduction_factor with
+          | Some rf => if (2 <=? rf)%Z then Some (geo_levels (Z.to_nat max_t) grace_period rf max_t) else None
+          | None =>
+              match rung_increment with
+              | Some incr => if (1 <=? incr)%Z then Some (arith_levels (Z.to_nat max_t) grace_period incr max_t)
+                             else None
+              | None => None
+              end
+          end
+        else None
+    end in
+  (* if rung_levels[-1] == max_t: rung_levels = rung_levels[:-1] *)
+  option_map (fun l => if (last l 0 =? max_t)%Z then removelast l else l) lv.
+
+(* (level, prom_quant) of a rung *)
+Definition rsig (rg : rung) : Z * Q := (r_level rg, r_quant rg).
